@@ -7,7 +7,7 @@ From PyOrb.lib Require Import PyReal SgpOutcome.
 From PyOrb.spec Require Import Spec_SGP4.
 From PyOrb.gen Require Import Gen_astronomy Gen_orbital Gen_sgp4 Gen_sgp4_compose.
 From PyOrb.proofs Require Import P_Kepler P_Newton P_Sgp4Init P_Sgp4Prop P_Sgp4Exits P_Sgp4SmallE P_Sgp4Lip P_Sgp4Accuracy
-                                 P_Sgp4Newton P_Sgp4EndToEnd P_Sgp4Answered P_AccuracyExample P_AnsweredExample.
+                                 P_Sgp4Newton P_Sgp4EndToEnd P_Sgp4Answered P_AccuracyExample P_AnsweredExample P_AnsweredExample3.
 From PyOrb.props Require C01.
 Open Scope R_scope.
 
@@ -156,4 +156,30 @@ Proof.
   - rewrite Hec.
     change (E (6703 / 10000000) (516416 / 10000) (2474627 / 10000) (1305360 / 10000) (3250288 / 10000) (1572125391 / 100000000) (- (11606 / 1000000000))) with ISS.
     change (mkT false 0) with T0. pose proof iss_a. split; [lra|exact iss_eL2].
+Qed.
+
+(* the same on the small-eccentricity path: e0 = 5e-5, i = 98.7 deg, n = 14.2 rev/day (C01_small_e_on_leaf3), at epoch *)
+Example C01_small_e_answered :
+  let e0 := 1 / 20000 in let i := 987 / 10 in let r := 2474627 / 10000 in let w := 1305360 / 10000 in
+  let m := 3250288 / 10000 in let n := 142 / 10 in let b := 1 / 100000 in
+  gen_init_outcome e0 i r w m n b = InitMode NearNorm 3 /\
+  (exists j, (j <= 5)%nat /\ gen_nn3_prop_outcome e0 i r w m n b 0 = PropOk j) /\
+  a (E e0 i r w m n b) (mkT true 0) <= 4 /\ eL2 (E e0 i r w m n b) (mkT true 0) (ecl3 e0 i r w m n b 0) <= 4 / 25.
+Proof.
+  cbv zeta. pose proof C01.C01_small_e_on_leaf3 as Hleaf.
+  assert (Hec : ecl3 (1 / 20000) (987 / 10) (2474627 / 10000) (1305360 / 10000) (3250288 / 10000) (142 / 10) (1 / 100000) 0
+                = e_unclamped SE T3).
+  { unfold ecl3.
+    change (E (1 / 20000) (987 / 10) (2474627 / 10000) (1305360 / 10000) (3250288 / 10000) (142 / 10) (1 / 100000)) with SE.
+    change (mkT true 0) with T3. apply clamp_e_id. pose proof se_e. lra. }
+  split; [exact Hleaf|]. split.
+  - apply (answered_when_healthy3 _ _ _ _ _ _ _ 0 Hleaf); rewrite ?Hec;
+      change (E (1 / 20000) (987 / 10) (2474627 / 10000) (1305360 / 10000) (3250288 / 10000) (142 / 10) (1 / 100000)) with SE;
+      change (mkT true 0) with T3.
+    + pose proof se_e. lra.
+    + pose proof se_eL2. lra.
+    + exact se_perigee.
+  - rewrite Hec.
+    change (E (1 / 20000) (987 / 10) (2474627 / 10000) (1305360 / 10000) (3250288 / 10000) (142 / 10) (1 / 100000)) with SE.
+    change (mkT true 0) with T3. pose proof se_a. pose proof se_eL2. split; lra.
 Qed.
